@@ -5,6 +5,8 @@
 #define BP_GENERATOR_SAVE
 #define BP_GENERATOR_LOAD
 #define BP_GENERATOR_SERIALIZE
+#define BP_GENERATOR_PARSE
+#define BP_SET_XQUAD
 #include "assumed_bppp.h"
 #include "src/secp256k1.c"
 #include "post.h"
@@ -28,4 +30,15 @@ void h_generator_serialize(void) {
     __CPROVER_assert(ret == 1 && g_illegal == 0 && g_error == 0, "C19 generator_serialize: returns 1 without callback for non-NULL arguments");
     __CPROVER_assert(out[0] == 10 || out[0] == 11, "C19 generator_serialize: first byte is 10 or 11");
     REACH("generator_serialize returns");
+}
+
+/* frame + 0/1 of the generator_parse contract used by the generator-list units, enforced on the real body
+ * for non-NULL arguments (lift-x is an oracle) */
+void h_generator_parse_frame(void) {
+    secp256k1_context ctx; INPUT_ARR(unsigned char, in33, 33); secp256k1_generator gen; int ret;
+    verif_ctx_init(&ctx);
+    ret = secp256k1_generator_parse(&ctx, &gen, in33);
+    __CPROVER_assert(g_illegal == 0 && g_error == 0, "C19 generator_parse: no callback for non-NULL arguments");
+    if (ret) REACH("generator_parse accepts");
+    if (!ret) REACH("generator_parse rejects");
 }
